@@ -67,7 +67,7 @@ func (sr *sessRun) script(toks []string) {
 		if idx+1 < len(toks) {
 			next = toks[idx+1]
 		}
-		num := func() int { n, _ := strconv.Atoi(strings.TrimRight(t[1:], "rengtSc")); return n }
+		num := func() int { n, _ := strconv.Atoi(strings.TrimRight(t[1:], "rengtScXT")); return n }
 		switch t[0] {
 		case 'c':
 			sr.trace = append(sr.trace, t)
@@ -128,9 +128,13 @@ func (sr *sessRun) script(toks []string) {
 			}
 			if sr.serve == "waitclose" {
 				sr.serve = "idle"
+				sr.afterBadClose(i)
 			} else if sr.serve == "handedpark" {
 				sr.serve = "handedpark-closed"
 			}
+		case 'd':
+			sr.trace = append(sr.trace, t)
+			sr.drain(num())
 		case 'R':
 			// the model says requester i returns now, with this outcome
 			body := t[1:]
@@ -159,10 +163,11 @@ func (sr *sessRun) script(toks []string) {
 func (sr *sessRun) feedScript(p peerStanza, expectHandler bool) {
 	k := sr.nread
 	sr.nread++
+	sr.badK[k] = p.bad
 	outBefore := sr.rs.Out.Len()
 	autoReply := p.kind == 'i' && p.typ != 'r' && p.typ != 'e'
 	want := sr.lookupShadow(p)
-	go sr.rs.Feed([]byte(p.xml()))
+	go sr.feedRaw(p)
 	if p.typ == 'r' || p.typ == 'e' {
 		if _, ok := sr.wait(isEv("serve", "park:session.serve.lookup"), "serve loop after lookup"); !ok {
 			sr.serve = "stuck"
@@ -187,6 +192,10 @@ func (sr *sessRun) feedScript(p peerStanza, expectHandler bool) {
 	default:
 		sr.hlog = append(sr.hlog, k)
 		sr.trace = append(sr.trace, "H"+strconv.Itoa(k))
+		if p.bad {
+			sr.awaitServeEnd()
+			return
+		}
 	}
 	if autoReply && (sr.broken || sr.outClosed) {
 		sr.awaitServeEnd()
